@@ -351,10 +351,7 @@ def _run_writer_cli(case, labels):
                 truth = (n0, cl0)
         seed = ['--seed', str(case['rseed'])]
         random.seed(case['rseed'])
-        try:
-            F, _ = _run_cli(['cnfgen'] + seed + base, 'formula')
-        finally:
-            gc.collect()       # argparse.FileType handles are never closed by the tool
+        F, _ = _run_cli(['cnfgen'] + seed + base, 'formula')
         n, clauses = _snapshot(F)
         if truth is not None and truth != (n, clauses):
             raise Violation("cnfgen dimacs: file with {} variables, clauses {} read as {} variables, clauses {}".format(
@@ -368,7 +365,7 @@ def _run_writer_cli(case, labels):
         _, captured = _run_cli(argv, 'output')
         what = "cnfgen {} -> {}".format(' '.join(argv[1:])[:120], case['out'])
         if case['out'] == 'file':
-            gc.collect()
+            gc.collect()       # the tool never closes its argparse.FileType handle: flush it
             if captured != '':
                 raise Violation("{}: {} characters on stdout although -o was given".format(what, len(captured)))
             with open(path, encoding='utf-8', newline='') as f:
@@ -525,7 +522,7 @@ def _st_cli(draw):
     return case
 
 
-_S_KIND = st.sampled_from(['hand'] * 5 + ['family'] * 3 + ['cli'] * 2)
+_S_KIND = st.sampled_from(['hand'] * 5 + ['family'] * 3 + ['cli'])
 _ST_HAND, _ST_FAMILY, _ST_CLI = _st_hand(), _st_family(), _st_cli()
 
 
